@@ -482,3 +482,97 @@ def check_c13(pid, tier):
 
 
 CHECKS["C13"] = check_c13
+
+
+# ---- C12 --------------------------------------------------------------------------------------------
+
+def sh_cfg(part, mut="none", keys=3, maxops=2, maxscore=2, minscore=1, view=True, emit=False, props=True):
+    s = "INIT Init\nNEXT Next\n" + ("VIEW View\n" if view else "")
+    s += 'CONSTANTS\n Part = "%s"\n Keys = {%s}\n Objs = {"p","q","r"}\n MinScore = %d\n MaxScore = %d\n MaxOps = %d\n Mut = "%s"\n' % (
+        part, ",".join('"k%d"' % i for i in range(1, keys + 1)), minscore, maxscore, maxops, mut)
+    if props:
+        s += "INVARIANTS SelectorInv\n" if part == "selector" else "PROPERTIES PropContract\n"
+    if emit:
+        s += "CONSTRAINT EmitScript\n"
+    return s
+
+
+def sh_steps(hist):
+    return [{"op": h["op"], "objs": sorted(h["objs"]), "failing": sorted(h["failing"]), "shardOf": h["shardOf"],
+             "before": {k: sorted(v) for k, v in h["before"].items()}, "after": {k: sorted(v) for k, v in h["after"].items()},
+             "res": h["res"], "code": h["code"], "missing": sorted(h["missing"])} for h in hist]
+
+
+def check_c12(pid, tier):
+    t0 = time.time()
+    sd = vlib.seed()
+    binary = vlib.go_build_test("comp")
+    work = vlib.scratch("c12")
+    quick = tier == "quick"
+    states = trans = 0
+    details = {"selector": [], "composite": [], "mutants_killed": {}}
+    for c in ([dict(keys=3, maxscore=3)] if quick else [dict(keys=3, maxscore=4), dict(keys=4, maxscore=2)]):
+        r = vlib.run_tlc("Sharding", sh_cfg("selector", **c), timeout=3400)
+        vlib.require_model_ok(r, "Sharding selector %s" % c)
+        states += r.distinct
+        trans += r.generated
+        details["selector"].append({"constants": c, "score_assignments_x_key_orders_x_listings": r.distinct})
+    for mut, kw in [("no_sort", {}), ("none", dict(minscore=0))]:
+        rm = vlib.run_tlc("Sharding", sh_cfg("selector", mut, **kw), timeout=900)
+        if rm.violated != "SelectorInv":
+            raise Broken("Sharding selector mutant %s %s not killed" % (mut, kw))
+        details["mutants_killed"]["selector/%s%s" % (mut, "/zero_scores_allowed" if kw else "")] = rm.violated
+    scripts = []
+    r = vlib.run_tlc("Sharding", sh_cfg("composite", keys=2 if quick else 3, maxops=2 if quick else 3), timeout=3400)
+    vlib.require_model_ok(r, "Sharding composite")
+    states += r.distinct
+    trans += r.generated
+    details["composite"].append({"distinct_states": r.distinct, "transitions": r.generated})
+    hists = []
+    rs = vlib.run_tlc("Sharding", sh_cfg("composite", keys=3, maxops=5, view=False, emit=True, props=False), mode="simulate", sim_num=400 if quick else 6000,
+                      sim_depth=8, sim_seed=sd * 23 + 1, workers=1, marker_sink=lambda m, o: hists.append(o), timeout=3000)
+    if not rs.ok:
+        raise Broken("Sharding simulation failed: %s %s" % (rs.violated, rs.error))
+    for n, h in enumerate(hists):
+        scripts.append({"id": "sim/%d" % n, "steps": sh_steps(h)})
+    for mut in ["ignore_failing_shard", "first_shard_only"]:
+        rm = vlib.run_tlc("Sharding", sh_cfg("composite", mut), dump_trace=True, timeout=600)
+        if not rm.violated:
+            raise Broken("Sharding composite mutant %s not killed" % mut)
+        details["mutants_killed"]["composite/" + mut] = rm.violated
+        st = vlib.cex_states(rm)
+        if st:
+            steps = sh_steps(st[-1]["hist"])
+            for s in steps:
+                s["res"] = ""
+            scripts.append({"id": "killer/" + mut, "steps": steps})
+    sp = os.path.join(work, "scripts.ndjson")
+    vlib.write_ndjson(sp, scripts)
+    rc, out = vlib.run_harness(binary, "TestShard", {"COMP_SCRIPTS": sp, "COMP_OUT": work, "VERIF_SEED": sd}, timeout=3000)
+    if rc != 0:
+        raise Broken("shard harness failed:\n" + out[-3000:])
+    summ = json.load(open(os.path.join(work, "shard_summary.json")))
+    rc, out = vlib.run_harness(binary, "TestSelector", {"COMP_OUT": work, "VERIF_SEED": sd, "COMP_RUNS": 60 if quick else 3000}, timeout=3000)
+    if rc != 0:
+        raise Broken("selector harness failed:\n" + out[-3000:])
+    ssum = json.load(open(os.path.join(work, "selector_summary.json")))
+    allp = os.path.join(work, "all.ndjson")
+    with open(allp, "w") as fh:
+        fh.write(open(os.path.join(work, "selector.ndjson")).read())
+        fh.write(open(os.path.join(work, "shard.ndjson")).read())
+    n_events, rejects, vstates = validate_obs("ShardingContractTrace", allp)
+    violations = report(pid, sd, rejects)
+    if summ["drift"]:
+        log("DRIFT property=%s %d of %d operations deviate from the design: %s" % (pid, summ["drift"], summ["compared"], json.dumps(summ.get("first_drifts"))[:1500]))
+    cov = {"states": states, "transitions": trans, "traces_validated_against_impl": n_events,
+           "selector_observations": ssum, "scripts": len(scripts),
+           "design_conformance": {"operations_compared": summ["compared"], "drifted": summ["drift"]}, "model": details,
+           "trace_validator_states": vstates, "samples": scripts[:1]}
+    vlib.write_evidence(pid, tier, "model_checking", cov, time.time() - t0, violations,
+                        ["the selector design is checked for every score assignment over a small range; the real 64-bit fixed-point score is exercised only through the conformance harness (random maps of 1-6 shards, weights incl. 1 and 2^32-1, hashes crafted through the inverse of the mixer so that the logarithm's argument is 0, 1, 2^k, 2^k+-1, 2^64-1 and lookup-table boundaries)",
+                         "minimal disruption is checked for every single removal and three random additions per (map, hash)",
+                         "composite: back ends are recording sets of objects; digests share only their leading eight hash bytes with the object they stand for (function, size, tail and instance name vary per call)"])
+    return 1 if violations else 0
+
+
+CHECKS["C12"] = check_c12
